@@ -137,12 +137,13 @@ def gen_update(rng, P, i, cls):
         recv = recv + [rng.choice(["bogus", "color", "size"])]
     arg, kwargs = ({} if rng.random() < 0.6 else None), {}
     r = rng.random()
-    if r < 0.03:
-        name = rng.choice(P["classes"][rcls]["others"] + ["copy"])
-        if "_" not in name:
+    if r < 0.05:
+        name = odd_name(rng, P, rcls)
+        if name != "__slotnames__":
             return ("U", i, recv, None, {name: rng.choice([None, 8])}, True, False)
-    if r < 0.05 and arg is not None:
-        arg = rng.randrange(len(P["panel"]))          # a scalar as `arg`
+    if r < 0.09 and arg is not None:
+        # a scalar as `arg` (`arg.copy()` -> AttributeError); not a list: `[].copy()` works and `{**[]}` is a TypeError
+        arg = rng.choice([j for j, v in enumerate(P["panel"]) if not isinstance(v, list)])
     else:
         for _ in range(rng.choice([0, 1, 1, 1, 2, 2, 3])):
             q, v = gen_entry(rng, P, rcls)
@@ -160,12 +161,36 @@ def gen_update(rng, P, i, cls):
     return ("U", i, recv, arg, kwargs, mt, rno)
 
 
+def odd_name(rng, P, cls):
+    """a non-property name: a method, a dunder name, an existing private slot, the frozen flag, an unknown underscored name"""
+    info = P["classes"][cls]
+    r = rng.random()
+    if r < 0.3:
+        return rng.choice([m for m in info["methods"] if not m.startswith("__")] + ["copy", "update", "as_dict", "reset", "add_trace"])
+    if r < 0.5:
+        return rng.choice([m for m in info["methods"] if m.startswith("__")] + ["__doc__", "__module__", "__dict__"])
+    if r < 0.75:
+        return rng.choice(["_" + p for p, _, _ in info["props"]] + ["_MagicProperties__isfrozen"])
+    return rng.choice(["_zzz", "__zzz__", "_bogus", "_", "__", "_colour", "zzz_", "copy_"])
+
+
+def class_at(P, cls, path):
+    """class of the sub-object at `path` (None if the path does not lead to a sub-object)"""
+    for k in path:
+        nxt = [x for p, kk, x in P["classes"][cls]["props"] if p == k and kk == "obj"]
+        if not nxt:
+            return None
+        cls = nxt[0]
+    return cls
+
+
 def gen_setattr(rng, P, i, cls):
     q, v = gen_entry(rng, P, cls)
-    r = rng.random()
-    if r < 0.04:
-        q = q[:-1] + [rng.choice(["copy", "update", "as_dict", "reset", "add_trace"])]
-        v = rng.choice([None, 8])
+    if rng.random() < 0.1:
+        c = class_at(P, cls, q[:-1])
+        if c is not None:
+            q = q[:-1] + [odd_name(rng, P, c)]
+            v = rng.choice([None, 8])
     return ("S", i, q[:-1], q[-1], v)
 
 
@@ -317,8 +342,23 @@ def run_real(P, objs, ops, pristine, stats):
                     x = root(i)
                     for k in recv:
                         x = getattr(x, k)
-                    setattr(x, name, to_real(P, v))
-                    res = "err shadow" if clean_shadows(root(i)) else "ok"
+                    if isinstance(x, MagicProperties) and not isinstance(getattr(type(x), name, None), property):
+                        # a non-property name: AttributeError = rejected; anything else (stored as a plain attribute, or
+                        # another exception such as TypeError for `__dict__ = 1`) = `shadow`; the instance is put back
+                        saved = dict(vars(x))
+                        try:
+                            setattr(x, name, to_real(P, v))
+                            res = "err shadow"
+                        except AttributeError:
+                            res = "err attribute"
+                        except Exception:  # noqa: BLE001
+                            res = "err shadow"
+                        finally:
+                            vars(x).clear()
+                            vars(x).update(saved)
+                    else:
+                        setattr(x, name, to_real(P, v))
+                        res = "ok"
                 elif op[0] == "R":
                     magpy.defaults.reset()
                     res = "ok"
@@ -381,7 +421,7 @@ def run_stream(ctx, n):
     rng = ctx.rng
     magpy.defaults.reset()
     pristine = magpy.defaults.as_dict()
-    stats = {"histories": 0, "ops": 0, "ops_by_kind": {}, "rejected_by_kind": {}, "accepted": 0, "resets": 0, "style_resets": 0, "max_path_depth": 0,
+    stats = {"odd_names": {}, "histories": 0, "ops": 0, "ops_by_kind": {}, "rejected_by_kind": {}, "accepted": 0, "resets": 0, "style_resets": 0, "max_path_depth": 0,
              "objects": 0, "disagreements": 0, "heap_pairs_checked": 0, "final_reset_checked": 0, "stable_states_checked": 0, "panel_values": len(P["panel"]),
              "property_classes": len(P["classes"]), "validator_rows": len(P["vrows"]), "values_outside_panel": 0}
     lines, reals, hist, fails = [], [], [], []
@@ -403,6 +443,11 @@ def run_stream(ctx, n):
                 stats["rejected_by_kind"][key] = stats["rejected_by_kind"].get(key, 0) + 1
             else:
                 stats["accepted"] += 1
+            nm = op[3] if op[0] == "S" else (next(iter(op[4]), None) if op[0] == "U" and len(op[4]) == 1 and not op[3] else None)
+            if nm is not None and (nm.startswith("_") or nm in ("copy", "update", "reset", "as_dict", "add_trace", "zzz_", "copy_")):
+                kind = ("dunder" if nm.startswith("__") else "private") if nm.startswith("_") else "method-or-public"
+                key = f"{op[0]}:{kind}:{out[4:] if out.startswith('err') else 'ok'}"
+                stats["odd_names"][key] = stats["odd_names"].get(key, 0) + 1
             if op[0] in ("U", "S"):
                 stats["max_path_depth"] = max(stats["max_path_depth"], len(op[2]) + 1)
         stats["resets"] += sum(o[0] == "R" for o in ops)
